@@ -15,7 +15,8 @@ import (
 // Cfg selects generator biases and the clauses of the reference monitor that are armed for one
 // property. Every property has its own test function with its own Cfg.
 type Cfg struct {
-	Prop string
+	HTTPPct int // share of schedule/cancel requests that go through the HTTP API (0: 20, negative: none)
+	Prop    string
 
 	MaxPipelines  int
 	MaxTasks      int
